@@ -158,10 +158,24 @@ func renderProgs(p []txh.TxnProg) string {
 }
 
 // TestC04_DisjointWritersBothCommit
-func TestC04_DisjointWritersBothCommit(t *testing.T) {
-	rec := stats.For("C04").Meta("exploration",
-		"2-3 writer transactions on one pre-seeded unique store with pairwise DISJOINT key sets (adds of new keys, updates and removes of distinct seeded keys), drawn so that they land in different leaves, the same leaf, overflow the same leaf (both split it) or empty it; slot length 2-8; the transactions run one at a time under a generated schedule that can switch at every backend call of the transaction manager (PCT-style few-preemption schedules and dense ones); maxTime 15 s; oracle: every Commit returns nil and the final fresh-reader dump equals the seed plus the union of the changes, Count included; non-trivial = some writer went through refetch-and-merge or was refused a node lock; distinct by programs + schedule",
-		"README: concurrent first commits into an empty store are unsupported, so the store is pre-seeded in a separate transaction", "in-process transactions sharing the in-memory L2 cache (standalone mode)")
+func TestC04_DisjointWritersBothCommit(t *testing.T) { disjointWriters(t, "C04") }
+
+// TestC10_ConcurrentWriters: the same generated cases judged for C10: whatever the writers' commits returned,
+// everything the committed state references afterwards loads (fresh reader and independent disk walk).
+func TestC10_ConcurrentWriters(t *testing.T) { disjointWriters(t, "C10") }
+
+func disjointWriters(t *testing.T, prop string) {
+	if prop == "C10" {
+		stats.For("C10").Meta("exploration",
+			"(concurrent part) 2-3 writer transactions with disjoint keys on one pre-seeded store (some seeded items rewritten by an earlier commit), adds/updates/removes/key-only updates, all value placements, generated free-form, starvation and directed schedules (commits beaten once or twice, refetch-and-merge passes); oracle: after all of them ended - committed or not - a fresh reader loads every item's value and an independent walk of the disk finds every registry entry, node blob and required value blob reachable from the root; non-trivial = some writer went through refetch-and-merge",
+			"standalone mode, in-process transactions")
+	}
+	rec := stats.For(prop)
+	if prop == "C04" {
+		rec.Meta("exploration",
+			"2-3 writer transactions on one pre-seeded unique store with pairwise DISJOINT key sets (adds of new keys, updates and removes of distinct seeded keys), drawn so that they land in different leaves, the same leaf, overflow the same leaf (both split it) or empty it; slot length 2-8; the transactions run one at a time under a generated schedule that can switch at every backend call of the transaction manager (PCT-style few-preemption schedules and dense ones); maxTime 15 s; oracle: every Commit returns nil and the final fresh-reader dump equals the seed plus the union of the changes, Count included; non-trivial = some writer went through refetch-and-merge or was refused a node lock; distinct by programs + schedule",
+			"README: concurrent first commits into an empty store are unsupported, so the store is pre-seeded in a separate transaction", "in-process transactions sharing the in-memory L2 cache (standalone mode)")
+	}
 	knownStale := stats.Known("C04", "tracked-item-pointer-stale-after-slot-shift")
 	knownMixture := stats.Known("C04", "merge-pass-mixture-commits-misplaced-key")
 	rapid.Check(t, func(t *rapid.T) {
@@ -196,7 +210,7 @@ func TestC04_DisjointWritersBothCommit(t *testing.T) {
 			tag++
 			op := txh.Op{K: k, Tag: fmt.Sprintf("w%d.%d", w, tag), Size: rapid.SampledFrom([]int{0, 10, 300}).Draw(t, "size")}
 			if seeded[k] {
-				op.Kind = rapid.SampledFrom([]string{"update", "rmw", "remove", "get"}).Draw(t, "kindSeeded")
+				op.Kind = rapid.SampledFrom([]string{"update", "rmw", "remove", "get", "updateKey"}).Draw(t, "kindSeeded")
 			} else {
 				op.Kind = rapid.SampledFrom([]string{"add", "add", "upsert", "addIfNotExist"}).Draw(t, "kindNew")
 			}
@@ -237,6 +251,25 @@ func TestC04_DisjointWritersBothCommit(t *testing.T) {
 		if err != nil {
 			t.Fatalf("HARNESS-ERROR %v", err)
 		}
+		// optionally a second committed transaction rewrites some seeded items first (their values then live in
+		// blobs of their own on out-of-node stores, the node slot only carries the value id)
+		preUpdated := false
+		if rapid.Bool().Draw(t, "preUpdate") {
+			var ops []txh.Op
+			for _, k := range seed {
+				if rapid.Bool().Draw(t, fmt.Sprintf("pre%d", k)) {
+					ops = append(ops, txh.Op{Kind: "update", K: k, Tag: fmt.Sprintf("pre%d", k), Size: 10})
+				}
+			}
+			if len(ops) > 0 {
+				var pr txh.TxnResult
+				models, pr = e.RunTxn(txh.TxnProg{Mode: sop.ForWriting, End: "commit", Ops: ops}, stores, models, txh.RunOpts{})
+				if pr.OpErr != nil || pr.Mismatch != "" || pr.CommitErr != nil {
+					t.Fatalf("HARNESS-ERROR pre-update transaction: %v %s %v", pr.OpErr, pr.Mismatch, pr.CommitErr)
+				}
+				preUpdated = true
+			}
+		}
 		res, s := e.RunConcurrent(stores, progs, schedule, txh.ConcOpts{GateCommits: knownSnapshot, Strict: strict, Directed: directed, MaxTime: 15 * time.Second, Budget: 90 * time.Second})
 		desc := fmt.Sprintf("slot=%d %s seed=%v %s strict=%v schedule=%s directed=[%s]", slot, txh.PlacementNames[placement], seed, renderProgs(progs), strict, renderSchedRLE(schedule), renderSegs(directed))
 		if s.TimedOut {
@@ -245,6 +278,36 @@ func TestC04_DisjointWritersBothCommit(t *testing.T) {
 		}
 		if s.Gated > 0 {
 			rec.Exclude("a commit was held back until no other transaction was in the middle of its operations (known finding: inconsistent snapshot while others commit)")
+		}
+		if prop == "C10" {
+			anyMerge, overlapped := false, false
+			for i, r := range res {
+				if mergePasses(r) > 0 {
+					anyMerge = true
+				}
+				if s.OthersMutatedRegistryDuringLastMerge(i) {
+					overlapped = true
+				}
+			}
+			bad := ""
+			if _, err := e.Dump(stores, sop.ForReading); err != nil {
+				bad = "a fresh reader cannot load the store: " + err.Error()
+			} else if p := txh.ReadDisk(e.Dir).AllProblems(); len(p) > 0 {
+				bad = strings.Join(p, "; ")
+			}
+			if bad != "" && overlapped && knownMixture {
+				rec.Exclude("another writer's commit wrote the registry in the middle of a writer's last refetch-and-merge pass (known C04 finding: merge pass navigates a mixture of old and new nodes)")
+				return
+			}
+			if bad != "" {
+				t.Fatalf("after the writers ended: %s\n%s", bad, desc)
+			}
+			labels := []string{"concurrentWriters", txh.PlacementNames[placement]}
+			if preUpdated {
+				labels = append(labels, "someSeededItemsRewrittenBefore")
+			}
+			rec.Case("conc "+desc, anyMerge, labels...)
+			return
 		}
 		want := models[0].Clone()
 		merged, refused, missed, mergedTwice := false, false, false, false
@@ -294,8 +357,12 @@ func TestC04_DisjointWritersBothCommit(t *testing.T) {
 						missed = true
 						continue
 					}
-					if o.Read != txh.MakeValue(fmt.Sprintf("seed%d", o.Op.K), 0) {
-						t.Fatalf("writer p%d: %s read %q, want the seeded value\n%s", i, o.Op, o.Read, desc)
+					if vs := models[0].Values(o.Op.K); len(vs) != 1 || o.Read != vs[0] {
+						t.Fatalf("writer p%d: %s read %q, want the committed value %v\n%s", i, o.Op, txh.Short(o.Read), vs, desc)
+					}
+				case "updateKey":
+					if !o.OK {
+						missed = true
 					}
 				}
 			}
@@ -357,6 +424,9 @@ func TestC04_DisjointWritersBothCommit(t *testing.T) {
 		}
 		if len(directed) > 0 {
 			labels = append(labels, "directedSchedule")
+		}
+		if preUpdated {
+			labels = append(labels, "someSeededItemsRewrittenBefore")
 		}
 		if refused {
 			labels = append(labels, "nodeLockRetried")
